@@ -49,7 +49,8 @@ RULE = ("params: criteria (4 presets, dyadic random, unset attributes, zero/inf)
         "runs: surfaces {harmonic, Morse networks, LJ3/LJ4, triatomic and diatomic double wells} x perturbed starts "
         "(incl. exact stationary start) x {Cartesian/DIC steepest descent, RFO, CRFO with 0-2 distance constraints, "
         "PRFO} x tolerance presets/custom/strict/thresholds in eV, kcal/mol, bohr, pm x maxiter (1..3 and 40..300, incl. "
-        "runs of > 10 iterations for the reload); distinct by the full case spec. calc: sequences of Calculation(OptKeywords) "
+        "runs of > 10 iterations for the reload; and a file-based (uses_external_io) fake program with two optimisations of "
+        "an equally named species from different starts in one directory, keep_input_files on/off); distinct by the full case spec. calc: sequences of Calculation(OptKeywords) "
         "through CalculationExecutorO in one directory (same name with changed / added constraints, exact repeats)")
 
 SLICE = ["lib/Sums.v", "lib/QcInst.v", "C10/Base.v", "C10/Model.v", "C10/Lemmas.v", "C10/Props.v", "C10/Corr.v",
@@ -237,6 +238,37 @@ def make_pot(spec):
     raise ValueError(k)
 
 
+# ============================================================================ the fake external program
+# A stand-alone script (written under ctx.work) that reads the generated input file (surface spec + geometry) and
+# writes energy and gradient of a bond network: the way the wrapped electronic-structure codes are driven.
+EXT_PROGRAM = r'''import json, math, sys
+inp, out = sys.argv[1], sys.argv[2]
+lines = open(inp).read().splitlines()
+terms = json.loads(lines[0])
+xyz = [[float(v) for v in l.split()[1:4]] for l in lines[1:] if len(l.split()) == 4]
+e, g = 0.0, [[0.0, 0.0, 0.0] for _ in xyz]
+for t in terms:
+    i, j = int(t[1]), int(t[2])
+    d = [xyz[i][k] - xyz[j][k] for k in range(3)]
+    r = math.sqrt(sum(c * c for c in d))
+    if t[0] == "h":
+        e += 0.5 * t[3] * (r - t[4]) ** 2
+        de = t[3] * (r - t[4])
+    else:
+        ex = math.exp(-t[4] * (r - t[5]))
+        e += t[3] * (1 - ex) ** 2
+        de = 2 * t[3] * (1 - ex) * t[4] * ex
+    for k in range(3):
+        g[i][k] += de * d[k] / r
+        g[j][k] -= de * d[k] / r
+with open(out, "w") as f:
+    f.write("ENERGY %r\n" % e)
+    for row in g:
+        f.write("GRAD %r %r %r\n" % tuple(row))
+    f.write("NORMAL TERMINATION\n")
+'''
+
+
 # ============================================================================ implementation environment
 class Env:
     pass
@@ -305,6 +337,68 @@ def get_env():
             if hk:
                 mol.hessian = Hessian(self.pot.hess(x), atoms=mol.atoms, units="Ha Å^-2")
 
+    class FileMock(Method):
+        """The same surfaces behind a file interface (uses_external_io = True): input file written by autodE's
+        executor, a separate program run on it, output file parsed.  Energy and gradient only."""
+        program = None          # path of the script, set by the stream
+
+        def __init__(self, pot_spec):
+            super().__init__(name="c10prog", keywords_set=KeywordsSet(), doi_list=[])
+            self.pot_spec = pot_spec
+            self.log = []
+            self.n_exec = 0
+
+        def __repr__(self):
+            return "C10FileMock"
+
+        def implements(self, calculation_type):
+            return calculation_type in (CalculationType.energy, CalculationType.gradient)
+
+        @property
+        def uses_external_io(self):
+            return True
+
+        @staticmethod
+        def input_filename_for(calc):
+            return f"{calc.name}.inp"
+
+        @staticmethod
+        def output_filename_for(calc):
+            return f"{calc.name}.out"
+
+        def generate_input_for(self, calc):
+            with open(calc.input.filename, "w") as f:
+                f.write(json.dumps(self.pot_spec["terms"]) + "\n")
+                for atom in calc.molecule.atoms:
+                    x, y, z = (float(v) for v in atom.coord)
+                    f.write(f"{atom.label} {x!r} {y!r} {z!r}\n")
+
+        def execute(self, calc):
+            self.n_exec += 1
+            rc, out = sh([sys.executable, FileMock.program, calc.input.filename, calc.output.filename], timeout=60)
+            if rc != 0:
+                raise RuntimeError("fake program failed: " + out[-300:])
+            # what the program evaluated: geometry of the input file, values of the output file
+            x = np.array([[float(v) for v in l.split()[1:4]] for l in open(calc.input.filename).read().splitlines()[1:]
+                          if len(l.split()) == 4])
+            lines = open(calc.output.filename).read().splitlines()
+            e = float([l for l in lines if l.startswith("ENERGY")][0].split()[1])
+            g = np.array([[float(v) for v in l.split()[1:4]] for l in lines if l.startswith("GRAD")])
+            self.log.append(("grad", x, e, g))
+
+        def terminated_normally_in(self, calc):
+            return any("NORMAL TERMINATION" in l for l in calc.output.file_lines)
+
+        def energy_from(self, calc):
+            for l in calc.output.file_lines:
+                if l.startswith("ENERGY"):
+                    return PotentialEnergy(float(l.split()[1]), units="Ha")
+            raise RuntimeError("no energy in output")
+
+        def gradient_from(self, calc):
+            return Gradient(np.array([[float(v) for v in l.split()[1:4]] for l in calc.output.file_lines
+                                      if l.startswith("GRAD")]), units="Ha/ang")
+
     class SCoords(CartesianCoordinates):
         """Cartesian coordinates with one (scripted) constraint: satisfied or not by coordinate id."""
         TABLE = {}
@@ -352,6 +446,7 @@ def get_env():
     env.SCoords, env.Scripted = SCoords, Scripted
     env.PotentialEnergy, env.GradientRMS, env.Distance = PotentialEnergy, GradientRMS, Distance
     env.Calculation, env.OptKeywords = Calculation, OptKeywords
+    env.FileMock = FileMock
     env.classes = {"sd_cart": CartesianSDOptimiser, "sd_dic": DIC_SD_Optimiser, "rfo": RFOptimiser,
                    "crfo": CRFOptimiser, "prfo": PRFOptimiser}
     env.base_file = os.path.join(REPO, "autode", "opt", "optimisers", "base.py")
@@ -745,6 +840,20 @@ def gen_cases(ctx, full):
                       "atoms": perturb("tri", 0.1), "opt": oname, "kwargs": kw, "maxiter": 200, "constraints": [],
                       "tol": {"abs_d_e": [0.01, "kcalmol"], "rms_g": [0.02, "eV/ang"], "max_g": [0.05, "eV/ang"],
                               "rms_s": [0.01, "bohr"], "max_s": [2.0, "pm"], "strict": rng.random() < 0.5}})
+    # energies/gradients through input/output files; a second optimisation of an equally named species from another
+    # start in the same directory must not be fed the first one's results
+    ext_pot = {"kind": "bondnet", "terms": [["m", 0, 1, 0.15, 1.8, 0.97], ["m", 0, 2, 0.15, 1.8, 0.97], ["m", 1, 2, 0.15, 1.8, 1.55]]}
+    starts = [[["O", -0.0011, 0.3631, 0.0], ["H", -0.88, -0.1819, 0.05], ["H", 0.8261, -0.25, 0.0]],
+              [["O", 0.0, 0.40, 0.0], ["H", -1.05, -0.30, 0.0], ["H", 0.62, -0.12, 0.10]]]
+    ext_opts = [("crfo", {}), ("sd_cart", {"step_size": 0.4})] + ([("rfo", {}), ("sd_dic", {"step_size": 0.4})] if full else [])
+    for oname, kw in ext_opts:
+        for keep in (True, False):
+            mk = lambda st: {"name": f"c10x{oname}", "surface": "morse3-extio", "pot": ext_pot, "atoms": st, "opt": oname,   # noqa
+                             "kwargs": kw, "tol": "normal", "maxiter": 200, "constraints": [], "extio": True,
+                             "keep_input_files": keep}
+            first = mk(starts[0])
+            cases.append(first)
+            cases.append(dict(mk(starts[1]), prior_cases=[first]))
     # a step far below 1e-8 A (the geometry-change threshold of Species._reset_properties_for)
     cases.append({"name": f"c10r{idx + 2}", "surface": "harm2-tiny-step", "pot": {"kind": "bondnet", "terms": [["h", 0, 1, 0.5, 1.25]]},
                   "atoms": [["H", 0.0, 0.0, 0.0], ["H", 1.25 + 1e-8, 0.0, 0.0]], "opt": "sd_cart", "kwargs": {"step_size": 0.4},
@@ -770,7 +879,10 @@ def run_case(env, case):
     """Run one real optimiser; returns everything the oracles need."""
     pot = make_pot(case["pot"])
     M = env.Mock(pot)
-    env.methods_mod.get_lmethod = lambda: M          # RFO/CRFO initial Hessian: "low-level method" (rfo.py:96-107)
+    env.methods_mod.get_lmethod = lambda: env.Mock(pot)   # RFO/CRFO initial Hessian: "low-level method" (rfo.py:96-107)
+    if case.get("extio"):
+        M = env.FileMock(case["pot"])                # energies and gradients arrive through input/output files
+        env.ade.Config.keep_input_files = bool(case.get("keep_input_files", True))
     mol = env.ade.Molecule(name=case["name"], atoms=[env.ade.Atom(a[0], a[1], a[2], a[3]) for a in case["atoms"]])
     if case["constraints"]:
         mol.constraints.distance = {(int(i), int(j)): float(r) for i, j, r in case["constraints"]}
@@ -1043,9 +1155,26 @@ def stream_runs(ctx, env, factor_lists, full, fail, only=None):
     budget = [len(cases) if full else 40]
     t0 = time.time()
     try:
+        env.FileMock.program = os.path.join(rundir, "c10_fake_program.py")
+        with open(env.FileMock.program, "w") as f:
+            f.write(EXT_PROGRAM)
+        keep0 = env.ade.Config.keep_input_files
         for case in cases:
+            if case.get("extio"):
+                # its own directory; earlier optimisations of the same-named species are run there first
+                sub = os.path.join(rundir, "ext_" + case["name"] + "_" + str(len(case.get("prior_cases", []))) +
+                                   ("k" if case.get("keep_input_files", True) else "n"))
+                os.makedirs(sub, exist_ok=True)
+                os.chdir(sub)
+                os.environ.pop("AUTODE_FIXUNIQUE", None)
+                for prior in case.get("prior_cases", []):
+                    run_case(env, prior)
             res = run_case(env, case)
             check_run(ctx, env, case, res, fail, terms, descr, factor_lists, budget)
+            if case.get("extio"):
+                ctx.hist("runs", f"extio:program-executions={res['M'].n_exec > 0}")
+                env.ade.Config.keep_input_files = keep0
+                os.chdir(rundir)
             ctx.count("runs", json.dumps(case, sort_keys=True), nontrivial=len(case["atoms"]) > 1,
                       sample={k: case[k] for k in ("surface", "opt", "tol", "maxiter", "constraints")})
             ctx.hist("runs", "surface:" + case["surface"])
